@@ -33,15 +33,22 @@ type qresult struct {
 	Arg    string   `json:"arg"`
 	Mode   string   `json:"mode"` // "key" | "offset" | "nil" (no page request)
 	Limit  int      `json:"limit"`
+	Offset int      `json:"offset"`
 	Items  []string `json:"items"`
 	Total  int      `json:"total"` // -1 when not reported
 	Pages  int      `json:"pages"`
 	Err    bool     `json:"err"`
 	ErrMsg string   `json:"errmsg"`
+	Panic  bool     `json:"panic"`
 }
 
-func walkPages(ctx context.Context, in qinst, mode string, limit int) qresult {
-	res := qresult{Q: in.q, Arg: in.arg, Mode: mode, Limit: limit, Items: []string{}, Total: -1}
+func walkPages(ctx context.Context, in qinst, mode string, limit int) (res qresult) {
+	res = qresult{Q: in.q, Arg: in.arg, Mode: mode, Limit: limit, Items: []string{}, Total: -1}
+	defer func() {
+		if p := recover(); p != nil {
+			res.Err, res.ErrMsg, res.Panic = true, fmt.Sprintf("panic: %v", p), true
+		}
+	}()
 	if mode == "nil" {
 		items, pg, err := in.fn(ctx, nil)
 		if err != nil {
@@ -55,13 +62,37 @@ func walkPages(ctx context.Context, in qinst, mode string, limit int) qresult {
 		}
 		return res
 	}
+	if mode == "offset0" {
+		// an offset without a limit: the default page size applies from that offset on
+		res.Offset = limit
+		items, pg, err := in.fn(ctx, &query.PageRequest{Offset: uint64(limit), CountTotal: true})
+		if err != nil {
+			res.Err, res.ErrMsg = true, firstLine(err.Error())
+			return res
+		}
+		res.Items = append(res.Items, items...)
+		res.Pages = 1
+		if pg != nil {
+			res.Total = int(pg.Total)
+		}
+		return res
+	}
 	var key []byte
 	offset := uint64(0)
 	for page := 0; page < 10000; page++ {
 		pr := &query.PageRequest{Limit: uint64(limit), CountTotal: page == 0}
-		if mode == "key" {
+		switch mode {
+		case "key":
 			pr.Key = key
-		} else {
+		case "keynolimit": // follow-up pages by key without a limit
+			pr.Key = key
+			if page > 0 {
+				pr.Limit = 0
+			}
+		case "reverse":
+			pr.Key = key
+			pr.Reverse = true
+		default:
 			pr.Offset = offset
 		}
 		items, pg, err := in.fn(ctx, pr)
@@ -438,7 +469,7 @@ func (r *runner) queries(ob M, budget int, st *State) {
 	limits := []int{1, 2, 3, 5, 100}
 	for k := 0; k < budget && len(insts) > 0; k++ {
 		in := insts[rng.Intn(len(insts))]
-		mode := []string{"key", "offset", "key", "offset", "nil"}[rng.Intn(5)]
+		mode := []string{"key", "offset", "key", "offset", "nil", "offset0", "keynolimit", "reverse"}[rng.Intn(8)]
 		res := walkPages(ctx, in, mode, limits[rng.Intn(len(limits))])
 		if res.ErrMsg != "" && !res.Err {
 			res.ErrMsg = strings.TrimSpace(res.ErrMsg)
